@@ -902,7 +902,8 @@ class HeapAudit(object):
             self.count('decoded element descriptors held by a cached compiled template (Table B object of an earlier load of the group)', older)
             self.count('decoded plain element descriptors that are not the cached object (copies)', copies)
             for nm, n in other.items():
-                self.count('per-message descriptor objects:' + nm, n)
+                self.count(('decoded operator descriptors (objects of the Table C memo):' if nm == 'OperatorDescriptor' else
+                            'per-message descriptor objects:') + nm, n)
         self.time += time.perf_counter() - t0
 
     # -- result --------------------------------------------------------------------------------
